@@ -34,14 +34,16 @@ def year_end_targets(lib, zones):
     return out
 
 
-def render_and_read_back(v, data, work, counters):
-    """Render ValidationData with the real ArduinoValidationGenerator, compile, read every item back."""
+def render_and_read_back(v, data, work, counters, has_valid_abbrev=True, has_valid_dst=True, tag="render"):
+    """Render ValidationData with the real ArduinoValidationGenerator, compile, read every item back.
+    The two has_valid_* flags of the data set tell the generated *tests* what to compare; they are not a licence to
+    drop or change what the *tables* carry (the property: rendering preserves every item's numbers and strings)."""
     sys.path.insert(0, str(REPO / "tools"))
     arval = importlib.import_module("validation.arvalgenerator")
     tr = importlib.import_module("tzdb.transformer")
-    vd = {"start_year": 2000, "until_year": 2038, "source": "pytz", "version": "x", "has_valid_abbrev": True, "has_valid_dst": True,
+    vd = {"start_year": 2000, "until_year": 2038, "source": "pytz", "version": "x", "has_valid_abbrev": has_valid_abbrev, "has_valid_dst": has_valid_dst,
           "test_data": data}
-    out = work / "render"
+    out = work / tag
     out.mkdir()
     logging.getLogger().setLevel(logging.CRITICAL + 1)
     try:
@@ -173,6 +175,11 @@ def run(tier):
             data.update(o.get("data", {}))
     if data:
         render_and_read_back(v, data, work, tot)
+        # the same items in a data set flagged the way the Java generator flags its output (abbreviations / DST offsets "not
+        # valid for comparison"): the flags steer the generated tests, the tables must still carry every number and string
+        few = {z: data[z] for z in sorted(data)[:8]}
+        render_and_read_back(v, few, work, tot, has_valid_abbrev=False, has_valid_dst=False, tag="render-flags-off")
+        render_and_read_back(v, few, work, tot, has_valid_abbrev=False, has_valid_dst=True, tag="render-abbrev-off")
     if tot.get("configs", 0) < 500 or tot.get("library_changes", 0) < 5000 or tot.get("rendered_items", 0) < 5000:
         v.inconclusive_because("deciding counters too low: %r" % tot)
     v.coverage.update({
